@@ -47,7 +47,7 @@ func srcSock(i int) (*net.UDPConn, error) {
 // fwdSock binds the destination of a possible forward (only addresses in 127.0.13.0/24
 // other than the children's own).
 func fwdSock(da []byte, dp int) *net.UDPConn {
-	if len(da) != 4 || da[0] != 127 || da[1] != 0 || da[2] != 13 || da[3] == 1 || da[3] == 4 || da[3] == 5 || da[3] == 11 || dp == 0 {
+	if len(da) != 4 || da[0] != 127 || da[1] != 0 || da[2] != 13 || da[3] == 1 || da[3] == 4 || da[3] == 5 || da[3] == 11 || da[3] == 14 || da[3] == 15 || dp == 0 {
 		return nil
 	}
 	key := fmt.Sprintf("%d.%d.%d.%d:%d", da[0], da[1], da[2], da[3], dp)
@@ -78,6 +78,8 @@ type obs struct {
 	replyMAC  string // none | ok | bad
 	replyMeta string // "<spi>:<alg>" of the reply's authenticator
 	fwd       *parsed
+	fwdRaw    []byte // the forwarded datagram as received (also when it does not parse)
+	fwdErr    string // why it does not parse
 	fwdFrom   netip.AddrPort
 	wrongSock bool
 	extra     int
@@ -88,7 +90,7 @@ var last obs
 
 func sentinel(p *pkt) *pkt {
 	return &pkt{
-		mode: p.mode, mock: p.mock, sock: p.sock, svc: svcPort, dscp: childDSCP, hop: p.hop,
+		mode: p.mode, mock: p.mock, sock: p.sock, svc: svcPort, dscp: childDSCP, hop: p.hop, zone: p.zone,
 		sia: 0x0001ff0000000111, dia: 0x0001ff0000000112, st: 0, dt: 0,
 		sa: []byte{127, 0, 13, 2}, da: []byte{127, 0, 13, 1}, pt: 0, path: nil, rev: "0:-",
 		l4: "udp", sp: sentinelSP, dp: svcPort, ulen: "ok", pld: ntpRequest(0x5e), mac: "-", ntp: "ok",
@@ -157,7 +159,15 @@ func settleInEpoch(next bool) {
 
 func handle(p *pkt) string {
 	if p.mode != "srvgrpc" {
-		return handleStable(p)
+		ans := handleStable(p)
+		if p.fwdOp && p.zone == "sw" && strings.HasPrefix(ans, "ok forward") && !strings.Contains(ans, ":ts") {
+			// no timestamp option from a listener that gets kernel rx timestamps: the one innocent cause is a
+			// listener goroutine of a fresh child that had not yet enabled timestamping; confirm once
+			time.Sleep(80 * time.Millisecond)
+			tsConfirmed++
+			ans = handleStable(p)
+		}
+		return ans
 	}
 	wait, k, marked := epochMarker(p)
 	for attempt := 0; attempt < 4; attempt++ {
@@ -196,7 +206,7 @@ func handleStable(p *pkt) string {
 	if err != nil {
 		return "bad-op"
 	}
-	cfg := childCfg{mode: p.mode, mock: p.mock}
+	cfg := childCfg{mode: p.mode, mock: p.mock, lo: p.zone == "none"}
 	for attempt := 0; ; attempt++ {
 		ans, retry := handleOnce(p, cfg, data)
 		if !retry || attempt >= 2 {
@@ -223,6 +233,10 @@ func handleStable(p *pkt) string {
 // dropsRefuted counts silent outcomes that the confirmation run turned into a reply / forward
 // (reported in the run's counters: a measure of how loaded the machine was)
 var dropsRefuted int
+
+// tsConfirmed counts forwards in the timestamping regime that were re-run because the dispatcher's
+// timestamp option was missing
+var tsConfirmed int
 
 func handleOnce(p *pkt, cfg childCfg, data []byte) (ans string, retry bool) {
 	ch, err := getChild(cfg)
@@ -350,8 +364,12 @@ func handleOnce(p *pkt, cfg childCfg, data []byte) (ans string, retry bool) {
 		fw.SetReadDeadline(time.Now().Add(15 * time.Millisecond))
 		n, from, err := fw.ReadFromUDPAddrPort(buf)
 		if err == nil {
+			last.fwdRaw = append([]byte(nil), buf[:n]...)
 			if r, err := parseDatagram(append([]byte(nil), buf[:n]...)); err == nil {
 				last.fwd, last.fwdFrom = r, from
+			} else if p.fwdOp {
+				// a datagram did arrive at the forwarding destination, but not one an end host can parse
+				last.fwdErr, last.fwdFrom = err.Error(), from
 			} else {
 				last.extra++
 			}
@@ -370,7 +388,13 @@ func handleOnce(p *pkt, cfg childCfg, data []byte) (ans string, retry bool) {
 		return "ok reply " + fmtReply(p, last.reply), false
 	case last.fwd != nil:
 		last.kind = "forward"
+		if p.fwdOp {
+			return "ok forward " + fmtForward(p, last.fwd) + " " + fmtFwdExt(p, last.fwdRaw), false
+		}
 		return "ok forward " + fmtForward(p, last.fwd), false
+	case last.fwdErr != "":
+		last.kind = "forward"
+		return fmt.Sprintf("ok forward to=%s:%d garbled", lib.Hex(p.da), p.dp), false
 	}
 	last.kind = "drop"
 	return "ok drop", false
@@ -471,7 +495,13 @@ func exec(toks []string) string {
 	}
 	switch toks[0] {
 	case "srv.handle":
-		p, ok := parseOp(toks[1:])
+		p, ok := parseOp(toks[1:], false)
+		if !ok {
+			return "bad-op"
+		}
+		return handle(p)
+	case "srv.fwd":
+		p, ok := parseOp(toks[1:], true)
 		if !ok {
 			return "bad-op"
 		}
